@@ -18,6 +18,9 @@ CONSTANTS
     VerifyBeforeCache = TRUE
     RecheckCachedLayer = TRUE
     PassVerifies = TRUE
+    TocLabelFirst = TRUE
+    WithMount = FALSE
+    FsCfgs = {"--"}
 INIT Init
 NEXT Next
 VIEW core
